@@ -22,7 +22,7 @@ type c19X struct {
 	Judged    bool
 }
 
-var c19Pos = []string{"before-helo", "greeted", "after-mail", "after-bdat-chunk", "after-transaction"}
+var c19Pos = []string{"before-helo", "greeted", "after-mail", "after-bdat-chunk", "after-transaction", "inside-auth-exchange"}
 var c19Kinds = []string{"boundary-line", "endless-line", "short-strings", "binary", "error-threshold"}
 
 // c19Prefix builds the conversation prefix for a position and returns the
@@ -52,6 +52,12 @@ func c19Prefix(t *Tape, sc *Scenario, pos int, steps *[]Step, cp *ConnBackendPla
 		}
 		n++
 		cp.Data = append(cp.Data, DataPlan{})
+	case 5:
+		// an AUTH exchange is waiting for the client's response (334 sent)
+		sc.Srv.InsecureAuth = true
+		sc.BE.Flavor = beAuth
+		cp.Auth = &AuthPlan{Mechs: []string{"SIMPLE"}, Steps: []SaslStep{{Challenge: []byte("challenge")}, {Done: true}}}
+		add(Step{Kind: kAuth, Data: line("AUTH SIMPLE")})
 	case 4:
 		add(Step{Kind: kMail, Data: line("MAIL FROM:<ok-s@a.example>")})
 		add(Step{Kind: kRcpt, Data: line("RCPT TO:<ok-r@b.example>")})
@@ -94,14 +100,19 @@ func genC19(t *Tape, tier string) *Scenario {
 		x.Limit = sc.Srv.MaxLine
 		d := []int{-2, -1, 0, 1, 2, 3, 50, x.Limit}[t.Named("c19delta", 8)]
 		x.Len = x.Limit + d
-		x.Pos = t.Named("c19pos", 5)
+		x.Pos = t.Named("c19pos", 6)
 		x.Form = t.Intn(2)
 		if x.Form == 1 && x.Pos != 1 && x.Pos != 4 {
 			x.Form = 0
 		}
+		if x.Pos == 5 {
+			x.Form = 2 // the line is the base64 response to a 334 challenge
+		}
 		x.Pre = c19Prefix(t, sc, x.Pos, &steps, &cp)
 		var probe string
-		if x.Form == 0 {
+		if x.Form == 2 {
+			probe = strings.Repeat("QUJD", x.Len/4+1)[:x.Len-2] + "\r\n"
+		} else if x.Form == 0 {
 			probe = "NOOP " + strings.Repeat("x", x.Len-7) + "\r\n"
 		} else {
 			base := "MAIL FROM:<ok-long@a.example>"
@@ -257,6 +268,10 @@ func checkC19(sc *Scenario, h *History) []Violation {
 			if x.Form == 1 && x.Pos != 1 && x.Pos != 4 {
 				okProbe = pr.Code/100 == 5
 			}
+			if x.Form == 2 {
+				// the response is handed to the exchange: success or an AUTH failure, never the too-long 500
+				okProbe = pr.Code == 235 || pr.Code == 454 || pr.Code == 535 || pr.Code == 501
+			}
 			if !okProbe || replies[x.Pre+1].Code != 250 || replies[x.Pre+2].Code != 221 {
 				out = append(out, Violation{Rule: "C19.short-line-refused", Detail: fmt.Sprintf("a line of %d octets (limit %d) was not handled normally: %s", x.Len, x.Limit, strings.Join(codes[x.Pre:], " ")), Witness: wit})
 			}
@@ -271,6 +286,11 @@ func checkC19(sc *Scenario, h *History) []Violation {
 				if strings.Contains(e.Arg, "ok-long") {
 					out = append(out, Violation{Rule: "C19.long-line-executed", Detail: fmt.Sprintf("an over-long line (%d octets, limit %d) reached the backend: %s(%s)", x.Len, x.Limit, e.Kind, e.Arg), Witness: wit})
 					break
+				}
+			}
+			if x.Form == 2 {
+				if n := len(eventsOf(h, 0, "SaslNext")); n > 1 {
+					out = append(out, Violation{Rule: "C19.long-line-executed", Detail: fmt.Sprintf("an over-long AUTH response (%d octets, limit %d) was handed to the SASL mechanism (%d Next calls)", x.Len, x.Limit, n), Witness: wit})
 				}
 			}
 		}
@@ -353,7 +373,7 @@ func segKey(sc *Scenario) string {
 func init() {
 	register(&Property{
 		ID: "C19", Level: "exploration",
-		Rule:     "raw driver sends (0) a probe line of length limit-2..limit+3, limit+50, 2*limit (CRLF included; NOOP padded or MAIL padded with spaces) for limits 64/200/2000 at five conversation positions, whole or cut so that the limit is crossed inside one segment or across segments; (1) an endless LF-free stream of 70000 octets at four positions including after a BDAT chunk; (2) every string of length <= 4 over {NUL,CR,LF,SP,A,:,<} as a command line, repeated 1-4 times; (3) seeded binary; (4) mixes of valid and malformed commands around the fourth error, checked against a reference error counter. Every case is non-trivial by construction; distinct by (kind, limit, length, form, position, lines, segmentation). Length limit+1 is generated but not judged.",
+		Rule:     "raw driver sends (0) a probe line of length limit-2..limit+3, limit+50, 2*limit (CRLF included; NOOP padded or MAIL padded with spaces) for limits 64/200/2000 at six conversation positions (the last one inside an AUTH exchange, where the line is the base64 response to a 334), whole or cut so that the limit is crossed inside one segment or across segments; (1) an endless LF-free stream of 70000 octets at four positions including after a BDAT chunk; (2) every string of length <= 4 over {NUL,CR,LF,SP,A,:,<} as a command line, repeated 1-4 times; (3) seeded binary; (4) mixes of valid and malformed commands around the fourth error, checked against a reference error counter. Every case is non-trivial by construction; distinct by (kind, limit, length, form, position, lines, segmentation). Length limit+1 is generated but not judged.",
 		Gen:      genC19,
 		Check:    checkC19,
 		Classify: classifyC19,
@@ -366,7 +386,7 @@ func init() {
 			for r := 0; r < reps; r++ {
 				for l := 0; l < 3; l++ {
 					for d := 0; d < 8; d++ {
-						for p := 0; p < 5; p++ {
+						for p := 0; p < 6; p++ {
 							out = append(out, map[string]int{"c19kind": 0, "c19limit": l, "c19delta": d, "c19pos": p})
 						}
 					}
